@@ -1120,10 +1120,10 @@ func (c *FnCtx) checkAsserts(fr *frame, b *ssa.BasicBlock, st *State, in ssa.Ins
 			ec.loopEntry = fr.loopEntrySt[li]
 		}
 		t := ec.boolOf(a.Expr)
-		c.canaryNext = a.Canary
+		c.canaryNext = a.Canary || a.NoAssume
 		o := c.oblige(st, "assert", "assertion before the line containing "+a.Name, t, p, "assert_at "+a.Name+": "+a.Text)
-		if o != nil && a.Canary {
-			o.Canary = true
+		if o != nil {
+			o.Canary = a.Canary // check_at: a real obligation that is merely not assumed afterwards
 		}
 	}
 }
